@@ -33,7 +33,11 @@ def run(ctx):
     attach(r3, dd, only={'del:slot-release-and-counter-decrement-come-together', 'del:slot-freed-only-after-job_close'})
     attach(r3, ps, only={'pass:record-read-only-when-a-delivery-slot-is-free'})
     attach(r3, qsend.clamp_sites(db, rep), prefixes=["clamp:"])
-    r3.expect_min(9)
+    from rules import C14 as _c14c
+    _cv = _c14c.control_value_sites(db, rep)
+    v_ = _cv['controls:concurrency-is-taken-as-written(0-holds-the-channel)']
+    r3.check(v_[0], 'controls:concurrency-is-taken-as-written(0-holds-the-channel)', v_[1], v_[2], v_[3])
+    r3.expect_min(10)
 
     r4 = rep.rule('C04.4-one-job-per-message-and-channel', 'R-EFFECT', 'pqchan insertion sites are exactly pqadd, job_close, pass_dochan(trouble), todo_do; an entry is removed before its job is opened; preprocessing happens once')
     from qv.lib import only_reached_through
